@@ -73,13 +73,21 @@ def gen_history(rng, tier):
                 ops.append('autoscaleout %d %d' % (c, rng.choice([8, 12, 16, 20])))
         elif x < 0.21:
             ops.append('scaledown %d %d' % (c, rng.choice([4, 8, 12, 0, 6])))
-        elif x < 0.45:
+        elif x < 0.42:
             ops.append('commitnth %d %d %d' % (c, rng.randint(0, 5), rng.random() < 0.6))
+        elif x < 0.45:
+            # a delayed duplicate of an older commit: same ranges, older epoch
+            ops.append('commitstale %d %d %d %d' % (c, rng.randint(0, 5), rng.random() < 0.6, rng.choice([1, 1, 2, 5, 100])))
         elif x < 0.60:
             ops.append('replace %d %d ?' % (p, rng.randint(0, 2)))
             y = rng.random()
             if y < 0.25:
                 ops.append('replace %d %d ?' % (p, rng.randint(0, 2)))
+            elif y < 0.33:
+                ops.append('replacemember %d %d %d ?' % (c, rng.randint(0, 7), rng.randint(0, 2)))
+                for _ in range(rng.randint(1, 3)):
+                    ops.append('replacelast %d ?' % rng.randint(0, 2))
+                if rng.random() < 0.5: ops.append('balance %d' % c)
             elif y < 0.40:
                 # retry after a spare was registered (the first call may have failed for lack of resources)
                 q = 60 + rng.randint(0, 5)
@@ -149,6 +157,11 @@ def scenario_histories():
         'H 0 ; ' + ' ; '.join('addproxy %d %d -' % (i, 10 if i <= 8 else (11 if i <= 12 else 12)) for i in range(1, 17))
         + ' ; addcluster 1 32 1 ? ; addproxy 17 10 - ; replace 9 0 ? ; addproxy 18 10 - ; addproxy 19 10 - ; addproxy 20 11 - ; addproxy 21 12 - ; addnodes 1 4 ?'
         + ' ; addproxy 22 10 - ; addproxy 23 10 - ; addproxy 24 12 - ; addproxy 25 11 - ; addcluster 2 4 1 ?',
+        # a replacement proxy (holding only replicas) fails in turn, several times; later allocations must not pick the failed ones
+        base + ' ; addcluster 1 4 1 ? ; replacemember 1 0 0 ? ; replacelast 0 ? ; replacelast 0 ? ; replacemember 1 1 0 ? ; replacelast 0 ? ; replacelast 0 ? ; replacelast 1 ? ; replacelast 0 ? ; replacelast 0 ? ; replacelast 0 ?'
+             + ' ; replacelast 0 ? ; replacelast 0 ? ; balance 1 ; addnodes 1 4 ? ; addcluster 2 4 1 ? ; replace 3 0 ? ; balance 1',
+        # scale out, commit, scale back in: the same ranges migrate back under a newer epoch; a delayed duplicate of the old commit must be refused
+        base + ' ; addcluster 1 4 1 ? ; addnodes 1 4 ? ; migrate 1 ; commitnth 1 0 0 ; commitnth 1 0 0 ; scaledown 1 4 ; commitstale 1 0 0 1 ; commitstale 1 1 0 2 ; commitstale 1 0 1 7 ; commitnth 1 0 1 ; commitstale 1 0 1 1 ; commitnth 1 0 1',
         # failover without a spare, then a spare is registered and the failover is retried
         'H 0 ; addproxy 1 10 - ; addproxy 2 11 - ; addcluster 1 4 1 ? ; replace 1 0 ? ; addproxy 3 12 - ; replace 1 0 ? ; replace 2 1 ? ; addproxy 4 10 - ; replace 2 2 ?',
         # scale-in freeing two chunks; an earlier source chunk drains first and a commit asks to clear free nodes mid-migration
@@ -162,7 +175,7 @@ def scenario_histories():
     return hs
 
 
-LABELS = {'C01': ('C01',), 'C04': ('C04',), 'C06': ('C06', 'C06epoch'), 'C10': ('C10',), 'C12': ('C12', 'C12repl'),
+LABELS = {'C01': ('C01',), 'C04': ('C04',), 'C06': ('C06', 'C06epoch'), 'C10': ('C10', 'C01'), 'C12': ('C12', 'C12repl'),
           'C13': ('C13',), 'C18': ('C18',)}
 
 
@@ -198,6 +211,7 @@ def analyse(chk, prop, results):
     for r in results:
         ops = [s.strip() for s in r['resolved'].split(' ; ')][1:]
         nontrivial = False
+        diverged = False
         for j, seg in enumerate(r['impl']):
             opn = ops[j] if j < len(ops) else '?'
             kind = opn.split()[0] if opn.split() else '?'
@@ -224,8 +238,9 @@ def analyse(chk, prop, results):
             if seg.split()[:3] != mseg.split()[:3] and first_dis is None:
                 first_dis = {'history': ' ; '.join(r['resolved'].split(' ; ')[:j + 2]), 'op_index': j, 'op': opn, 'impl': seg, 'model': mseg}
             if seg.split()[:3] != mseg.split()[:3]:
-                stats['disagreements'] += 1
-                break
+                if not diverged: stats['disagreements'] += 1
+                diverged = True      # keep evaluating the monitors on the implementation's later states
+                continue
             mmon = mseg.split()[3] if len(mseg.split()) > 3 else 'm=?'
             if mmon != 'm=ok':
                 chk.violation({'kind': 'model-monitor', 'what': 'extracted predicate false on the model state: ' + mmon, 'history': r['resolved'], 'op_index': j}, no_input=True)
